@@ -195,6 +195,9 @@ def run(tier):
         c['n'] = n + 1
         k = '%s/%s/%s/%s' % (c['w'], c['pc'], 'benign' if c['ben'] else 'nonbenign', 'ok' if c['wf'] and c['cf'] else 'bad')
         classes[k] = classes.get(k, 0) + 1
+    for w_ in BOUNDS[tier]:
+        if not classes.get('%s/done/benign/ok' % w_):
+            raise vlib.Infra('vacuous: no benign, well-formed case exported for writer %s' % w_)
     spec_bad = [c for c in cases if c['ben'] and c['pc'] == 'done' and not (c['wf'] and c['cf'])]
     cexcase = None
     if cex:
@@ -229,7 +232,7 @@ def run(tier):
         for k_, v_ in out['by_signature'].items():
             by_sig[remap.get(k_, k_)] = by_sig.get(remap.get(k_, k_), 0) + v_
         out['by_signature'] = by_sig
-        for f in out['failures']:
+        for f in (out.get('failures') or []):
             sig = f['signature'] = remap.get(f['signature'], f['signature'])
             if sig in seen:
                 continue
@@ -258,6 +261,9 @@ def run(tier):
         want = sum(1 for c in cases if c['w'] in ('streams', 'matrix', 'vector'))
         if stats.get('cases_streams', 0) + stats.get('cases_matrix', 0) + stats.get('cases_vector', 0) != want:
             raise vlib.Infra('driver replayed %d of %d series cases' % (replayed, want))
+        for k_, least in (('prom_ok', 50), ('list_ok', 100), ('fullstack_ok', 50), ('cases_tail', 50)):
+            if stats.get(k_, 0) < least:
+                raise vlib.Infra('vacuous: %s = %d (< %d)' % (k_, stats.get(k_, 0), least))
         if stats.get('nontrivial_ok', 0) < 100:
             raise vlib.Infra('vacuous: only %d non-trivial cases passed' % stats.get('nontrivial_ok', 0))
         total = replayed + sum(v for k, v in stats.items() if k.startswith(('fullstack_streams', 'fullstack_matrix', 'fullstack_vector', 'list_loki', 'list_tempo', 'prom_scalar', 'prom_vector', 'prom_matrix')))
